@@ -144,7 +144,8 @@ def qe_asarray(qe, wave, waveunit):
         else:
             assert qe.size == wave.size
     else:
-        qe = qe.sample(wave, waveunit=waveunit)
+        # (one value per wavelength slice, also for a single scalar wavelength)
+        qe = np.atleast_1d(qe.sample(wave, waveunit=waveunit))
 
     return qe
 
